@@ -47,6 +47,7 @@ fn run_cfg(sc: &Scenario, n: usize, q: Option<usize>, rng: &mut Rng, model: &mut
         }
     }
     let mut lock = Lock::new(sim, Some(model));
+    lock.mixed = sc.has_b();
     lock.ask_model(init_line(sc, n, req), "init");
     let mut result = None;
     let finished = lock.run_random(
@@ -122,7 +123,7 @@ fn main() {
     let extra_schedules = opts.tier.pick(8u64, 40); // beyond the 16 worker×quantum combinations
     let deadline = std::time::Instant::now() + std::time::Duration::from_secs(opts.tier.pick(95, 1500));
     let quanta = [Some(1usize), Some(2), Some(7), None];
-    let confluent_kinds = ["confluent", "confluent", "confluent", "pipeline", "request_reply", "late_await"];
+    let confluent_kinds = ["confluent", "typed_selective", "confluent", "pipeline", "typed_selective", "confluent", "request_reply", "typed_selective", "late_await"];
     let mut total_runs = 0u64;
     let mut total_steps = 0u64;
     let mut done = 0u64;
